@@ -9,8 +9,9 @@
 (* For single-instance runs the observation must be exactly the observable *)
 (* Scenario.tla computes for the case (Expected = the deterministic run of *)
 (* the state machine); pauses are one-sided (never shorter than asked).    *)
-(* For multi-instance runs ([next] sharing, M1) arrival order is free; the *)
-(* rows seen must be the consecutive numbers 0..M-1 mod R, each once.      *)
+(* For multi-instance / multi-scenario runs ([next] sharing M1, weights)    *)
+(* the order is free; rows seen must be the consecutive numbers 0..M-1     *)
+(* mod R per iterator, counts per step those of whole ring cycles.         *)
 (* The walk over the lines is chunked so TLC's workers check in parallel.  *)
 (***************************************************************************)
 EXTENDS Scenario, Json, IOUtils
@@ -29,8 +30,11 @@ R == Trace[IF l = 0 THEN 1 ELSE l]
 C == R.case
 O == R.obs
 E == Expected(C)
-Single == l > 0 /\ R.inst = 1
-Multi  == l > 0 /\ R.inst > 1
+\* one instance and one scenario: the run is deterministic, the observation must be exactly Expected.
+\* several instances or several scenarios: the order in which shots interleave (and the order of the ring
+\* within a cycle - the statement only promises proportions) is free; counts over whole cycles are compared.
+Single == l > 0 /\ R.inst = 1 /\ Len(C.scens) = 1
+Multi  == l > 0 /\ (R.inst > 1 \/ Len(C.scens) > 1)
 
 \* the real provider and gun could be built from the rendered description and the engine run returned nil
 Built == l = 0 \/ (O.build_err = "" /\ O.run_err = "")
@@ -56,20 +60,23 @@ SamplesOK == Single => LET es == E.samples IN
                             /\ O.samples[j].err = es[j].err
                             /\ O.samples[j].empty = es[j].err
 
-\* ammo ring: weights reduced by their GCD, scenarios in listed order
-RingOK == l > 0 => LET er == [j \in 1..Len(RingOf(C.scens)) |-> C.scens[RingOf(C.scens)[j]].name] IN
-                   /\ Len(O.ring) > 2 * Len(er)
-                   /\ \A j \in 1..Len(O.ring) : O.ring[j] = er[((j - 1) % Len(er)) + 1]
+\* ammo ring: in every whole cycle (sum of weights / gcd consecutive ammo) each scenario appears weight / gcd times
+RingOK == l > 0 => LET ws == [j \in 1..Len(C.scens) |-> EffW(C.scens[j].weight)]
+                       g  == IF Len(ws) = 1 THEN ws[1] ELSE GCDSeq(ws)
+                       L  == IF Len(ws) = 1 THEN 1 ELSE TotalW(C) \div g
+                   IN /\ Len(O.ring) >= 2 * L
+                      /\ \A cyc \in 0..((Len(O.ring) \div L) - 1) : \A j \in 1..Len(C.scens) :
+                            Cardinality({p \in 1..L : O.ring[cyc * L + p] = C.scens[j].name})
+                              = (IF Len(ws) = 1 THEN 1 ELSE ws[j] \div g)
 
 \* [next] across instances: per source the rows seen are 0..M-1 mod R with the right multiplicities,
 \* where M is the number of [next] look-ups the description makes (Expected.handed)
 SeenRows(src)  == {j \in 1..Len(O.log) : O.log[j].val.t = SrcTag(src)}
 NextRowsOK == Multi => LET eh == E.handed IN \A src \in Sources :
-                 LET M == Cardinality({j \in 1..Len(eh) : eh[j].src = src}) IN
-                 /\ Cardinality(SeenRows(src)) = M
+                 /\ Cardinality(SeenRows(src)) = Cardinality({j \in 1..Len(eh) : eh[j].src = src})
                  /\ \A r \in 0..(C.rows - 1) :
                       Cardinality({j \in SeenRows(src) : O.log[j].val.n = r})
-                        = Cardinality({m \in 0..(M - 1) : m % C.rows = r})
+                        = Cardinality({j \in 1..Len(eh) : eh[j].src = src /\ eh[j].n % C.rows = r})
 MultiSamplesOK == Multi => LET e == E IN
                            /\ Len(O.samples) = Len(e.samples)
                            /\ Len(O.log) = Len(e.log)
